@@ -177,11 +177,17 @@ def run_property(pid, tier, seed, replay, *, make_cases, judge, corr_filter=None
 
 # ---------------------------------------------------------------- common case makers
 
-def histories(rng, n, lo=5, hi=40, **kw):
+def histories(rng, n, lo=5, hi=40, n_long=None, **kw):
+    """n ordinary histories plus a share of LONG ones (150-450 operations, many cancels and amendments):
+    queue-internal thresholds (compaction, resizing, batch limits) are only crossed by long histories."""
     out = []
     for i in range(n):
         g = lvl.HistGen(rng, big=(i % 12 == 0), **kw)
         out.append((g.price, g.history(rng.randint(lo, hi))))
+    n_long = max(20, n // 40) if n_long is None else n_long
+    for i in range(n_long):
+        g = lvl.HistGen(rng, **kw)
+        out.append((g.price, g.history(rng.randint(150, 450))))
     return out
 
 
